@@ -3187,6 +3187,12 @@ impl Block {
             error!("ERROR 48205: block has a fee transaction but none is due");
             return false;
         }
+        if cv.ft_num == 0 && cv.fee_transaction.is_some() {
+            // Block::create always appends the fee transaction of a block with a
+            // golden ticket; leaving it out would make the payout vanish
+            error!("ERROR 48206: block has a golden ticket but carries no fee transaction");
+            return false;
+        }
         if cv.ft_num > 0 {
             if let (Some(ft_index), Some(fee_transaction_expected)) =
                 (cv.ft_index, cv.fee_transaction)
